@@ -115,11 +115,13 @@ func c11loop(c *Ctx, fn *ssa.Function) {
 					return isSub[in]
 				}
 			}
+			// within the same iteration: the end of the iteration (loop header), a further eviction or a return
+			// must not be reachable without the event
 			reach := an.Explore(fn, an.After(e.start), e.facts, barrier)
-			bad := reach.Reached(ev) && !(e.start == ev && false)
-			// the start instruction itself is not "reached again" unless through the loop
-			r.Check(!bad, "PATH", key+"/"+e.name+"/"+what, c.InstrPos(e.start), "done before any further eviction",
-				"a further Evict is reachable without "+what+" for the pod just handled")
+			hdr := an.InnermostLoopHeader(e.start.Block())
+			bad := reach.Reached(ev) || (hdr != nil && reach.BlockReached(hdr)) || len(reach.Returns()) > 0
+			r.Check(!bad, "PATH", key+"/"+e.name+"/"+what, c.InstrPos(e.start), "done before the iteration ends",
+				"the iteration can end (or a further Evict is reachable) without "+what+" for the pod just handled")
 		}
 	}
 	// met => leave the loop
